@@ -316,6 +316,9 @@ impl<'tx> TxInner<'tx> {
                     file.write_all(buf)?;
                 }
             }
+            // make sure the data pages are durable before the meta page points at them
+            file.flush()?;
+            file.sync_all()?;
         }
         if self.db.inner.flags.strict_mode {
             self.check()?;
